@@ -819,8 +819,13 @@ def num(v):
 
 
 def norm(v):
-    if isinstance(v, Fraction) and v.denominator == 1:
-        return int(v.numerator)
+    if isinstance(v, Fraction):
+        if v.numerator.bit_length() > 20000 or v.denominator.bit_length() > 20000:
+            raise Unsupported("number too large for the reference run")
+        if v.denominator == 1:
+            return int(v.numerator)
+    elif isinstance(v, int) and not isinstance(v, bool) and v.bit_length() > 20000:
+        raise Unsupported("number too large for the reference run")
     return v
 
 
@@ -852,7 +857,7 @@ def install_prims(m):
     def mul(*a):
         r = 1
         for x in a:
-            r = r * num(x)
+            r = norm(r * num(x))
         return norm(r)
 
     def div(*a):
@@ -984,6 +989,8 @@ def install_prims(m):
         for l in ls[:-1]:
             out.extend(plist(l))
         need(list_to_py(ls[-1]) is not None, "append expects lists")
+        if len(out) > 100000:
+            raise Unsupported("list too large for the reference run")
         return py_to_list(out, ls[-1])
     defprim("append", append, 0, None)
     defprim("reverse", lambda l: py_to_list(list(reversed(plist(l)))), 1)
@@ -1150,7 +1157,12 @@ def install_prims(m):
     def s(v):
         need(isinstance(v, str) and not isinstance(v, Sym), "expected a string")
         return v
-    defprim("string-append", lambda *a: "".join(s(x) for x in a), 0, None)
+    def string_append(*a):
+        r = "".join(s(x) for x in a)
+        if len(r) > 100000:
+            raise Unsupported("string too large for the reference run")
+        return r
+    defprim("string-append", string_append, 0, None)
     defprim("string-length", lambda a: len(s(a)), 1)
     defprim("string?", lambda a: isinstance(a, str) and not isinstance(a, Sym), 1)
     defprim("symbol?", lambda a: isinstance(a, Sym), 1)
